@@ -597,6 +597,9 @@ def deleg_history(rng):
     ops += ["new a %s" % cn, "new b %s" % cn]
     names = ["v", "v_", "v__", "vq", "w", "w_", DELEGATE_ATTR, DELEGATE_ATTR + "_", "x_"]
     tag = 10
+    if rng.random() < 0.3:
+        # an instance-level delegate whose shadow is resolved, then looked at from the other instance
+        ops += ["add a .w Deleg@9", rng.choice(["get a .w_", "set a .w_ n", "trt a .w_ -1"])]
     for _ in range(rng.randint(2, 8)):
         o, n = rng.choice("ab"), rng.choice(names)
         r = rng.random()
